@@ -4,3 +4,6 @@ package zygo
 
 // verifStep is a no-op unless built with -tags verif.
 func (env *Zlisp) verifStep() error { return nil }
+
+// verifReplEnv is a no-op unless built with -tags verif.
+func verifReplEnv(env *Zlisp) {}
